@@ -22,7 +22,7 @@
 
 package storage
 
-//@ property C14
+//@ section C14
 //
 // Segment life cycle. refCount counts active holders; index != nil means "open" (series index and shards loaded);
 // mustBeDeleted is the one-way deletion flag. Opening and closing the resources is external (bluge index, shard
@@ -182,6 +182,7 @@ package storage
 // removeSeg: removes exactly the entry with the given id (the first one), keeps the order of the others
 //@ func segmentController.removeSeg
 //@   mode int
+//@   timeout 60
 //@   requires sc != nil
 //@   requires forall k :: 0 <= k && k < len(sc.lst) ==> sc.lst[k] != nil
 //@   modifies sc.lst
@@ -190,10 +191,11 @@ package storage
 //@   ensures  nonnil: forall k :: 0 <= k && k < len(sc.lst) ==> sc.lst[k] != nil
 //@   loop 0 invariant samehdr(sc.lst, old(sc.lst)) && (forall k :: 0 <= k && k < len(sc.lst) ==> sc.lst[k] != nil)
 //
-//@ property C07
+//@ section C07
 // forced disk-pressure cleanup: at most the single oldest segment, never the last one
 //@ func segmentController.removeOldest
 //@   mode int
+//@   timeout 60
 //@   requires sc != nil && lstOK(sc)
 //@   modifies sc.lst
 //@   modifies allof(segment.mustBeDeleted)
@@ -205,6 +207,7 @@ package storage
 // scheduled retention: a segment is flagged for deletion only when its whole time range lies before the deadline
 //@ func segmentController.remove
 //@   mode int
+//@   timeout 60
 //@   requires sc != nil && lstOK(sc)
 //@   modifies sc.lst
 //@   modifies sc.lst[0:cap(sc.lst)]
@@ -226,6 +229,7 @@ package storage
 //@   ensures  result == retentionDeadline
 //@ func database.SelectSegments
 //@   mode int
+//@   timeout 60
 //@   requires d != nil && d.segmentController != nil && lstOK(d.segmentController)
 //@   modifies allof(segment.refCount)
 //@   modifies allof(segment.index)
@@ -237,7 +241,7 @@ package storage
 //@   loop 0 invariant window: len(kept) <= range_i && sameobj(kept, segments) && off(kept) == off(segments) && cap(kept) == cap(segments)
 //@   loop 0 invariant kept-live: forall j :: 0 <= j && j < len(kept) ==> kept[j] != nil && !ite(kept[j].IncludeEnd, kept[j].End < deadline, kept[j].End <= deadline)
 //
-//@ property C06
+//@ section C06
 // ---- time segments partition the timeline: on-demand creation ----
 // list invariant: half-open ranges [Start, End), ascending and non-overlapping
 //@ spec func segsWF(sc *segmentController) bool =
@@ -290,6 +294,7 @@ package storage
 // clipped by its neighbours) and never creates overlap.
 //@ func segmentController.create
 //@   mode int
+//@   timeout 60
 //@   requires sc != nil && segsWF(sc)
 //@   modifies sc.lst
 //@   allow panic when true
